@@ -250,7 +250,7 @@ pub fn stream(kind: Kind, plan: &Plan, seed: u64, f: &mut dyn FnMut(&[u8], Tag))
                     for q in 0..l {
                         for &v in values {
                             f(&gen::g3_message(kind, field, l, q, v, ph, (l + q) % 5 == 0), Tag::G3);
-                            if ph == 0 && l <= 48 {
+                            if ph == 0 && (l <= 48 || values.len() <= 8) {
                                 // obs-text-rich neighbourhood (carry / borrow between adjacent bytes of a word)
                                 f(&gen::g3_message_v(kind, field, l, q, v, ph, false, 1), Tag::G3);
                                 // plain-letter neighbourhood ("clean ASCII word" fast paths)
